@@ -74,6 +74,17 @@ class KeyboardBoom(KeyboardInterrupt):
     pass
 
 
+class AlwaysEqual:
+    """a value that compares equal to everything (like unittest.mock.ANY) - also to None"""
+    def __eq__(self, other):
+        return True
+
+    def __ne__(self, other):
+        return False
+
+    __hash__ = object.__hash__
+
+
 class EmptyBoom(Boom):
     """a falsy exception (like an empty error collection): a failure like any other"""
     def __len__(self):
@@ -142,10 +153,11 @@ def run_history(case, rng):
         falsy = rng.random() < 0.4
 
         inner_failure = rng.choice([Boom, Boom, ExitBoom, KeyboardBoom])
+        leaked_value = rng.choice(['leaked-value', 0, '', False, (None,), [], AlwaysEqual()])
 
         def root(number, kind=kind, log=log, raised=raised, n_roots=n_roots,
                  nested_log=nested_log, deep=deep, falsy=falsy, step=step,
-                 inner_failure=inner_failure):
+                 inner_failure=inner_failure, leaked_value=leaked_value):
             async def body():
                 log.append(('begin', number, time.now))
                 if number == 0 and foreign:
@@ -191,7 +203,8 @@ def run_history(case, rng):
                 await (time + 1)
                 log.append(('end', number, time.now))
                 if kind == 'leak' and number == 0:
-                    return 'leaked-value'
+                    # (anything but the object None is a value nobody received)
+                    return leaked_value
             coro = body()
             coro.__name__ = coro.__qualname__ = 'root%d' % number
             return coro
